@@ -41,5 +41,5 @@ git apply -R $out/demo.diff
 ( cd $wt && timeout 3000 unshare -n bash -c "ip link set lo up; ip link set lo multicast on; ip route add 224.0.0.0/4 dev lo; cargo test -p dust_dds --offline --no-fail-fast 2>&1" | grep -E "^test result|^test .* FAILED" | sort | uniq -c | sort -rn | head -40 ) >> $log 2>&1
 git checkout -q -- . && git clean -fdq
 echo "RESULT clean_ok=$clean_ok mut_fail=$mut_fail" >> $log
-cp $out/patch.diff $out/demo.diff $out/notes.md $dst/ 2>/dev/null
+[ -f $dst/patch.orig.diff ] || cp $out/patch.diff $dst/ 2>/dev/null; cp $out/demo.diff $out/notes.md $dst/ 2>/dev/null
 tail -1 $log
